@@ -39,6 +39,7 @@ def generate(rng, tier, i):
                  'outcome': rng.choice(['clean', 'clean', 'drop', 'abort', 'silent', 'noack']), 'j': rng.randint(1, 6)}
             if s['peer'] == 'bam':
                 s['outcome'] = rng.choice(['clean', 'clean', 'drop'])
+                s['bam_pdu1'] = rng.random() < 0.4
             if s['outcome'] == 'abort' and rng.random() < 0.5:
                 s['burst'] = True
                 s['j'] = rng.choice([1, 1, s['j']])
@@ -116,6 +117,8 @@ def execute(scn, keep_log=False, hook=None):
             p = None if bam else peers[s['peer']]
             da = 255 if bam else PEERS[s['peer']]
             pf, ps = (0xFE, 0xCA) if bam else (0xD0, da)
+            if bam and s.get('bam_pdu1'):
+                pf, ps = 0xEF, 255          # a PDU1 parameter group broadcast to the global address
             if s['outcome'] == 'drop':
                 bus.faults = [{'kind': 'drop', 'k': len(bus.frames) + s['j'] - 1}]
             elif s['outcome'] == 'abort':
@@ -158,7 +161,7 @@ def execute(scn, keep_log=False, hook=None):
                 n0 = len(bus.frames)
                 # another parameter group for the same (SA,DA) pair (other PF for a destination-specific message, other
                 # group extension for a broadcast): the pair is busy all the same
-                pf2, ps2 = (pf, ps) if not s.get('busy_other_pgn') else ((pf, 0xCB) if bam else (0xD1, ps))
+                pf2, ps2 = (pf, ps) if not s.get('busy_other_pgn') else (((0xD3, 255) if ps == 255 else (pf, 0xCB)) if bam else (0xD1, ps))
                 ok2 = st.cas[s['ca']].send_pgn(0, pf2, ps2, 6, list(fresh(s['len'])))
                 if ok2 is not False:
                     viol.append({'clause': 'accepted-on-busy-pair', 'rank': 2, 'msg': 'step %d: second send_pgn on a busy (SA,DA) pair returned %r' % (si, ok2)})
